@@ -23,6 +23,8 @@ def hx(b):
 def neighbours_of(rng, f, evs):
     """events adjacent in byte order to what the filter asks for; the caller drops those that match"""
     out = []
+    # filters may carry hex in either case; stored events always have canonical lower-case ids / pubkeys
+    f = {k: ([x.lower() for x in v] if k in ("ids", "authors") else v) for k, v in f.items()}
 
     def mk(**kw):
         e = {"id": gen.mkid(rng), "pubkey": rng.choice(gen.AUTHORS[:4]), "created_at": gen.T0 + rng.choice([0, 1, 50, 255, 256]),
